@@ -89,6 +89,17 @@ def scan(repo="/repo"):
             fn = enclosing_fn(src, mm.start())
             key = (rel, fn, expr)
             (found if key in COVERED else unknown).append(key)
+    # an error value holding a hash map (MultiError) rendered with Debug shows the map's hash order: `fn main() -> Result`
+    # prints its error that way, and so does `{e:?}` / `{:?}` applied to a transform error in the front ends
+    for rel in ("src/bin/svgdx.rs", "src/cli.rs"):
+        path = os.path.join(repo, rel)
+        if not os.path.exists(path):
+            continue
+        text = open(path).read()
+        src = rsitems.Src(text)
+        for mm in re.finditer(r"fn\s+main\s*\(\s*\)\s*->\s*Result|transform failed: \{e:\?\}", text):
+            if src.mask[mm.start()] or "transform failed" in mm.group(0):
+                unknown.append((rel, enclosing_fn(src, mm.start()) or "main", "Debug rendering of a transform error (MultiError holds a HashMap)"))
     return found, unknown
 
 
